@@ -39,13 +39,29 @@ def rm(path):
     shutil.rmtree(path, ignore_errors=True)
 
 
+class Inconclusive(Exception):
+    """raised by a case that could not be decided (watchdog fired, tool missing); never a violation"""
+
+
+INCONCLUSIVE = []      # descriptions of undecided cases; `check` moves them into the evidence
+
+
 def pmap(fn, items, workers=NCPU):
-    """Run fn over items on a thread pool (the work is in subprocesses); keeps order."""
+    """Run fn over items on a thread pool (the work is in subprocesses); keeps order.
+    A case that raises Inconclusive is dropped from the results and recorded in INCONCLUSIVE."""
     items = list(items)
     if not items:
         return []
+    skip = object()
+
+    def safe(x):
+        try:
+            return fn(x)
+        except Inconclusive as e:
+            INCONCLUSIVE.append(str(e))
+            return skip
     with ThreadPoolExecutor(max_workers=workers) as ex:
-        return list(ex.map(fn, items))
+        return [r for r in ex.map(safe, items) if r is not skip]
 
 
 def sha(data):
